@@ -198,6 +198,57 @@ func init() {
 		*cell = cutS[:0]
 		return true
 	}
+	// NilNthElement(root any, n int, pkgPath string) bool: the n-th list element (walk
+	// order) that is a non-nil pointer to a named struct of package pkgPath - directly or
+	// inside an interface - is replaced by a typed nil pointer of the same type.
+	externals[rt+"NilNthElement"] = func(fr *frame, args []value) value {
+		h := &heapVisitor{in: fr.i, seen: map[*value]bool{}, exempt: map[string]bool{}}
+		n, idx, pkg := int(asInt64(args[1])), 0, goString(args[2])
+		var cell *value
+		var repl value
+		ofPkg := func(t types.Type) bool {
+			pt, ok := t.Underlying().(*types.Pointer)
+			if !ok {
+				return false
+			}
+			nm, ok := pt.Elem().(*types.Named)
+			if !ok || nm.Obj().Pkg() == nil || nm.Obj().Pkg().Path() != pkg {
+				return false
+			}
+			_, isStruct := nm.Underlying().(*types.Struct)
+			return isStruct
+		}
+		h.onSlice = func(_ *value, s []value, elem types.Type) {
+			for i := range s {
+				var r value
+				switch e := s[i].(type) {
+				case *value:
+					if e == nil || !ofPkg(elem) {
+						continue
+					}
+					r = (*value)(nil)
+				case iface:
+					if p, ok := e.v.(*value); !ok || p == nil || e.t == nil || !ofPkg(e.t) {
+						continue
+					}
+					r = iface{t: e.t, v: (*value)(nil)}
+				default:
+					continue
+				}
+				if idx == n {
+					cell, repl = &s[i], r
+				}
+				idx++
+			}
+		}
+		it := args[0].(iface)
+		h.walk(it.v, it.t, nil, 0)
+		if cell == nil {
+			return false
+		}
+		*cell = repl
+		return true
+	}
 	// ReachablePointers(root any, pkgPath string) []any: every pointer to a named struct
 	// type of package pkgPath reachable from root, each once, as interface values.
 	externals[rt+"ReachablePointers"] = func(fr *frame, args []value) value {
